@@ -306,6 +306,7 @@ pub fn gen_random(seed: u64, idx: u64) -> Plan {
         // the same handshakes and payloads through the HTTPS acceptor
         for c in conns.iter_mut() {
             c.kind = ConnKind::Tls;
+            fit_c2s(c);
         }
     }
     Plan {
